@@ -85,7 +85,8 @@ def apply_op(tier, op, args, sc, kind):
         tier.deleteEntry(entry_of(kind, args["e"], sc, st & ~0x60))
         return tier
     if name in ("union", "difference", "intersection", "mergeLabels", "append"):
-        other = core.mk_tier(args["other"], sc)
+        # "same": the operand is the receiver itself (A.union(A)), not an equal copy
+        other = tier if args.get("same") else core.mk_tier(args["other"], sc)
         meth = {"union": "union", "difference": "difference", "intersection": "intersection",
                 "mergeLabels": "mergeLabels", "append": "appendTier"}[name]
         return getattr(tier, meth)(other)
@@ -98,8 +99,14 @@ def apply_op(tier, op, args, sc, kind):
         if args.get("filter") is not None:
             keep = set(args["filter"])
             # a predicate answers with whatever is true or false for its author: a bool, a count, a match object
-            form = (st >> 9) % 3
-            if form == 0:
+            form = (st >> 9) % 4
+            if form == 3:
+                # a callable collection of the accepted labels: false as an object when it is empty, yet a predicate
+                class Accepted(frozenset):
+                    def __call__(self, lab):
+                        return lab in self
+                filt = Accepted(keep)
+            elif form == 0:
                 filt = lambda lab: lab in keep  # noqa
             elif form == 1:
                 filt = lambda lab: [lab].count(lab) if lab in keep else 0  # noqa
